@@ -24,7 +24,7 @@ def load_known():
         if not line.startswith("known:"):
             continue
         try:
-            head, what = line[len("known:"):].split("::", 1)
+            head, what = line[len("known:"):].split(" :: ", 1)
             parts = dict(p.split("=", 1) for p in head.split() if "=" in p)
             out[(parts["property"], parts["key"])] = what.strip()
         except Exception:
